@@ -94,4 +94,242 @@ theorem emit_ext_spec (toc : Nat) (frames : List Bytes) (hne : frames ≠ []) (h
     rw [ser_code3 sd _ _ _ _ (by omega) hne]
     simp [padHdr, padData, encodeSize_eq]
 
+/-! ### the gathered extensions are valid generator input -/
+
+theorem renumber_valid (p : Bytes) (hb : BytesOk p) (nf : Nat) (hnf : nf ≤ 48) (i b e : Nat) :
+    ∀ x ∈ renumber p (padRefs p nf) i b e, ValidExt (e - b) x := by
+  obtain ⟨n, _, _, hext, _⟩ := pad_facts p hb nf hnf
+  intro x hx
+  simp only [renumber, List.mem_map, List.mem_filter, decide_eq_true_eq] at hx
+  obtain ⟨r, ⟨hr, hlo, hhi⟩, rfl⟩ := hx
+  obtain ⟨h1, h2, _, h4, h5, h6⟩ := hext r hr
+  refine ⟨?_, ?_, ?_, ?_, ?_, ?_, ?_⟩
+  · simp only [ExtRef.toExt]; omega
+  · simp only [ExtRef.toExt]; omega
+  · simp only []; omega
+  · simp only []; omega
+  · simp only [ExtRef.toExt]; exact h4
+  · simp only [ExtRef.toExt]; intro h; exact h6 (by omega)
+  · simp only [ExtRef.toExt, List.length_take, List.length_drop]; omega
+
+theorem gathered_valid (pads : List (Bytes × Nat)) (hok : PadsOk pads) (i b e : Nat) :
+    ∀ x ∈ gathered pads i b e, ValidExt (e - b) x := by
+  induction pads generalizing i with
+  | nil => intro x hx; cases hx
+  | cons pn rest ih =>
+    obtain ⟨p, nf⟩ := pn
+    obtain ⟨hb, hnf⟩ := hok (p, nf) (by simp)
+    have hr : PadsOk rest := fun x hx => hok x (by simp [hx])
+    intro x hx
+    simp only [gathered, List.mem_append] at hx
+    rcases hx with hx | hx
+    · split at hx
+      · cases hx
+      · exact renumber_valid p hb nf hnf i b e x hx
+    · exact ih hr (i + 1) x hx
+
+/-- Stored paddings that carry no extension, or are not well-formed extension lists, contribute nothing. -/
+theorem gathered_nil (pads : List (Bytes × Nat)) (h : ∀ pn ∈ pads, padRefs pn.1 pn.2 = []) (i b e : Nat) :
+    gathered pads i b e = [] := by
+  induction pads generalizing i with
+  | nil => rfl
+  | cons pn rest ih =>
+    obtain ⟨p, nf⟩ := pn
+    have h0 := h (p, nf) (by simp)
+    simp only [gathered]
+    simp only [] at h0
+    rw [h0, ih (fun x hx => h x (by simp [hx]))]
+    simp [renumber]
+
+/-! ### histories keep the stored paddings well-typed -/
+
+theorem padsOk_step (rp : Rp) (hp : PadsOk rp.pads) (op : Op) (hb : ∀ bs, op = .cat bs → BytesOk bs) :
+    PadsOk (step rp op).pads := by
+  cases op with
+  | init => intro pn h; simp [step, init] at h
+  | out _ => exact hp
+  | outRange _ _ _ => exact hp
+  | cat bs =>
+    simp only [step, cat]
+    by_cases h : (catImpl rp bs false).2 = .ok ()
+    · obtain ⟨r, hr, hst⟩ := catImpl_ok_state rp bs false h
+      rw [hst]
+      obtain ⟨p, hv, hbs, hview, hpad, _⟩ := packet_of_parse bs (hb bs rfl) r hr
+      have hc48 := (OpusProps_parse_in_bounds false bs (hb bs rfl) r hr).2
+      intro pn hpn
+      simp only [catNew, (withToc_frames rp _).2.1, List.mem_append, List.mem_cons, List.mem_replicate] at hpn
+      rcases hpn with hpn | rfl | ⟨_, rfl⟩
+      · exact hp pn hpn
+      · refine ⟨?_, hc48⟩
+        intro x hx
+        exact hb bs rfl x (List.mem_of_mem_drop (List.mem_of_mem_take hx))
+      · exact ⟨fun x hx => (by cases hx), (by omega)⟩
+    · rw [(catImpl_reject rp bs false h).2.1]; exact hp
+
+theorem padsOk_run (rp : Rp) (hp : PadsOk rp.pads) (ops : List Op) (hb : OpsOk ops) : PadsOk (run rp ops).pads := by
+  induction ops generalizing rp with
+  | nil => exact hp
+  | cons op ops ih =>
+    simp only [run, List.foldl_cons]
+    apply ih
+    · exact padsOk_step rp hp op (fun bs h => hb bs (by simp [h]))
+    · intro bs hbs; exact hb bs (by simp [hbs])
+
+theorem reachable_padsOk {s : Rp} (h : Reachable s) : PadsOk s.pads := by
+  obtain ⟨ops, hok, rfl⟩ := h
+  exact padsOk_run _ (by intro pn h; simp [Rp.empty] at h) ops hok
+
+/-! ### out_range_impl -/
+
+/-- `out_range_impl` on a valid range: gather, then emit. -/
+theorem outRangeImpl_gather (rp : Rp) (hp : PadsOk rp.pads) (b e : Nat) (hb : b < e) (he : e ≤ rp.nbFrames)
+    (maxlen : Int) (sd pad : Bool) (exts : Array Ext) :
+    outRangeImpl rp b e maxlen sd pad exts =
+      emit rp.toc (selFrames rp b e) maxlen sd pad (exts ++ (gathered (rp.pads.take e) 0 b e).toArray) := by
+  unfold outRangeImpl
+  rw [if_neg (by omega)]
+  simp only [Int.toNat_natCast]
+  rw [gatherExts_spec _ (fun pn h => hp pn (List.mem_of_mem_take h))]
+
+/-- Fix 374eedae: stored paddings that carry nothing (no extension, or not a well-formed extension
+    list) are dropped: the output is that of the extension-free case. -/
+theorem outRangeImpl_dropped (rp : Rp) (hp : PadsOk rp.pads) (b e : Nat) (hb : b < e) (he : e ≤ rp.nbFrames)
+    (hnil : ∀ pn ∈ rp.pads, padRefs pn.1 pn.2 = []) (maxlen : Int) (sd pad : Bool) :
+    outRangeImpl rp b e maxlen sd pad #[] =
+      if minSize sd ((selFrames rp b e).map List.length) > maxlen then .err .bufferTooSmall
+      else .ok (serialize sd (outPacket rp.toc (selFrames rp b e) maxlen sd pad)) := by
+  rw [outRangeImpl_gather rp hp b e hb he, gathered_nil _ (fun pn h => hnil pn (List.mem_of_mem_take h))]
+  have hne : selFrames rp b e ≠ [] := by
+    intro h
+    have : (selFrames rp b e).length = e - b := by unfold Rp.nbFrames at he; simp [selFrames]; omega
+    rw [h] at this; simp at this; omega
+  simpa using emit_noext rp.toc _ hne maxlen sd pad
+
+theorem extPacket_len (toc : Nat) (frames : List Bytes) (hne : frames ≠ []) (amount : Int) (ser : Bytes) (sd : Bool)
+    (h1 : 1 ≤ amount) (h2 : 0 ≤ amount - ser.length - (amount - 1) / 255 - 1) :
+    ((serialize sd (extPacket toc frames amount ser)).length : Int) =
+      tot3 (frames.map List.length) (sdSize sd ((frames.map List.length).getLastD 0)) + amount := by
+  unfold extPacket
+  rw [ser_code3 sd _ _ _ _ (by omega) hne]
+  rw [tot3_eq _ (by simpa using hne), sumN_map_length, sdSize_eq]
+  simp only [padHdr, padData, extPad, Pad.hdr, List.length_append, List.length_cons, List.length_nil,
+    List.length_replicate]
+  push_cast
+  omega
+
+theorem extPacket_padBytes (toc : Nat) (frames : List Bytes) (amount : Int) (ser : Bytes) :
+    padBytes (extPacket toc frames amount ser) =
+      List.replicate (amount - ser.length - (amount - 1) / 255 - 1).toNat 1 ++ ser := rfl
+
+/-- The padding region the parser reports for a serialised packet is the packet's padding. -/
+theorem padding_of_serialize (sd : Bool) (p : Packet) (rest : Bytes) :
+    ((serialize sd p ++ rest).drop (view sd p).padOffset).take (view sd p).padLen = padBytes p := by
+  simp only [view, Parsed.padOffset, Packet.lens, sumN_map_length]
+  have : serialize sd p ++ rest = (header sd p ++ p.frames.flatten) ++ (padBytes p ++ rest) := by simp [serialize]
+  rw [this, ← List.length_append, List.drop_left, List.take_left]
+
+/-- `out_range_impl` with extensions (no repeats), assembled. -/
+theorem outRangeImpl_ext (rp : Rp) (hinv : Inv rp) (hp : PadsOk rp.pads) (b e : Nat) (hb : b < e) (he : e ≤ rp.nbFrames)
+    (exts : Array Ext) (hvx : AllValid exts (e - b))
+    (hpos : 0 < (exts ++ (gathered (rp.pads.take e) 0 b e).toArray).size)
+    (hnr : NoRepeat (exts ++ (gathered (rp.pads.take e) 0 b e).toArray) (e - b))
+    (maxlen : Int) (sd pad : Bool) (bs : Bytes) (h : outRangeImpl rp b e maxlen sd pad exts = .ok bs) :
+    ∃ (p : Packet) (k : Nat), Valid p ∧ bs = serialize sd p ∧ p.frames = selFrames rp b e ∧ p.toc / 4 = rp.toc / 4 ∧
+      padBytes p = List.replicate k 1 ++ extSer (exts ++ (gathered (rp.pads.take e) 0 b e).toArray) (e - b) ∧
+      AllValid (exts ++ (gathered (rp.pads.take e) 0 b e).toArray) (e - b) ∧
+      (bs.length : Int) ≤ maxlen ∧ (pad = true → (bs.length : Int) = maxlen) := by
+  obtain ⟨hok, hlen⟩ := selFrames_ok rp hinv b e hb he
+  have hn48 : (selFrames rp b e).length ≤ 48 := by rw [hlen]; have := hinv.nb_le; omega
+  have hv : AllValid (exts ++ (gathered (rp.pads.take e) 0 b e).toArray) (e - b) := by
+    apply allValid_of_all
+    intro x hx
+    simp only [Array.toList_append, List.mem_append] at hx
+    rcases hx with hx | hx
+    · obtain ⟨j, hj⟩ := List.mem_iff_getElem?.mp hx
+      exact hvx j x (by simpa using hj)
+    · exact gathered_valid _ (fun pn h => hp pn (List.mem_of_mem_take h)) 0 b e x (by simpa using hx)
+  rw [outRangeImpl_gather rp hp b e hb he] at h
+  rw [← hlen] at hv hnr
+  rw [emit_ext_spec rp.toc _ hok.ne hn48 _ hpos hv hnr] at h
+  simp only [] at h
+  split at h
+  · simp at h
+  · rename_i hfit
+    simp only [Res.ok.injEq] at h
+    have hLpos := extSer_pos _ _ hv hpos
+    have hfacts : ∀ (tot : Int) (L : Nat), 0 < L →
+        ¬ (tot > maxlen ∨ maxlen - tot < L ∨ tot + L + (extAmount maxlen tot pad L - 1) / 255 + 1 > maxlen) →
+        1 ≤ extAmount maxlen tot pad L ∧
+        0 ≤ extAmount maxlen tot pad L - (L : Int) - (extAmount maxlen tot pad L - 1) / 255 - 1 ∧
+        tot + extAmount maxlen tot pad L ≤ maxlen ∧ (pad = true → tot + extAmount maxlen tot pad L = maxlen) := by
+      intro tot L hL hf
+      cases pad
+      · simp only [extAmount, Bool.false_eq_true, if_false] at hf ⊢
+        refine ⟨by omega, by omega, by omega, by intro h; cases h⟩
+      · simp only [extAmount, if_true] at hf ⊢
+        refine ⟨by omega, by omega, by omega, by intro _; omega⟩
+    obtain ⟨ham1, ham2, hle, hpadlen⟩ := hfacts _ _ hLpos hfit
+    have hl := extPacket_len rp.toc (selFrames rp b e) hok.ne _ _ sd ham1 ham2
+    obtain ⟨k, hk⟩ : ∃ k, padBytes (extPacket rp.toc (selFrames rp b e)
+        (extAmount maxlen (tot3 ((selFrames rp b e).map List.length)
+          (sdSize sd (((selFrames rp b e).map List.length).getLastD 0))) pad
+          (extSer (exts ++ (gathered (rp.pads.take e) 0 b e).toArray) (selFrames rp b e).length).length)
+        (extSer (exts ++ (gathered (rp.pads.take e) 0 b e).toArray) (selFrames rp b e).length)) =
+        List.replicate k 1 ++ extSer (exts ++ (gathered (rp.pads.take e) 0 b e).toArray) (e - b) :=
+      ⟨_, by rw [extPacket_padBytes, hlen]⟩
+    refine ⟨_, k, extPacket_valid rp.toc _ hok _ _ ham1 ham2, h.symm, rfl, ?_, hk, ?_, ?_, ?_⟩
+    · show (rp.toc / 4 * 4 + 3) / 4 = rp.toc / 4; omega
+    · rw [hlen] at hv; exact hv
+    · rw [← h, hl]; exact hle
+    · intro hpd; rw [← h, hl]; exact hpadlen hpd
+
+/-- `out_range_impl` with extensions as an equation (used for the size clause and the examples). -/
+theorem outRangeImpl_ext_eq (rp : Rp) (hinv : Inv rp) (hp : PadsOk rp.pads) (b e : Nat) (hb : b < e) (he : e ≤ rp.nbFrames)
+    (exts : Array Ext) (hvx : AllValid exts (e - b))
+    (hpos : 0 < (exts ++ (gathered (rp.pads.take e) 0 b e).toArray).size)
+    (hnr : NoRepeat (exts ++ (gathered (rp.pads.take e) 0 b e).toArray) (e - b))
+    (maxlen : Int) (sd pad : Bool) :
+    outRangeImpl rp b e maxlen sd pad exts =
+      let all := exts ++ (gathered (rp.pads.take e) 0 b e).toArray
+      let L := (extSer all (e - b)).length
+      let tot := tot3 ((selFrames rp b e).map List.length) (sdSize sd (((selFrames rp b e).map List.length).getLastD 0))
+      let amount := extAmount maxlen tot pad L
+      if tot > maxlen ∨ maxlen - tot < L ∨ tot + L + (amount - 1) / 255 + 1 > maxlen then .err .bufferTooSmall
+      else .ok (serialize sd (extPacket rp.toc (selFrames rp b e) amount (extSer all (e - b)))) := by
+  obtain ⟨hok, hlen⟩ := selFrames_ok rp hinv b e hb he
+  have hn48 : (selFrames rp b e).length ≤ 48 := by rw [hlen]; have := hinv.nb_le; omega
+  have hv : AllValid (exts ++ (gathered (rp.pads.take e) 0 b e).toArray) (e - b) := by
+    apply allValid_of_all
+    intro x hx
+    simp only [Array.toList_append, List.mem_append] at hx
+    rcases hx with hx | hx
+    · obtain ⟨j, hj⟩ := List.mem_iff_getElem?.mp hx
+      exact hvx j x (by simpa using hj)
+    · exact gathered_valid _ (fun pn h => hp pn (List.mem_of_mem_take h)) 0 b e x (by simpa using hx)
+  rw [outRangeImpl_gather rp hp b e hb he]
+  rw [← hlen] at hv hnr
+  rw [emit_ext_spec rp.toc _ hok.ne hn48 _ hpos hv hnr, hlen]
+
+theorem padRefs_of_count_zero (p : Bytes) (nf : Nat) (h : Ext.count p p.length nf = .ok 0) : padRefs p nf = [] := by
+  unfold padRefs
+  rw [h]
+  simp only []
+  rcases count_zero_parse p p.length nf h ((0 : Nat) : Int) with h1 | h1 <;> rw [h1]
+
+/-- A stored padding that is a canonical extension list carries exactly that list. -/
+theorem padRefs_ser (l : List Ext) (nbF : Nat) (hnf : nbF ≤ 48) (hv : ∀ e ∈ l, ValidExt nbF e) (hs : FrameSorted 0 l)
+    (hb : BytesOk (serBytes 0 l)) : padRefs (serBytes 0 l) nbF = serRefs 0 0 l := by
+  obtain ⟨it, l', s, _, _, _, _, hcount, _, _, hparse, _⟩ := scan_agree (serBytes 0 l) hb nbF hnf
+  have h1 := (parse_ser l nbF hnf hv hs ((l.length : Int) + l'.length) (by omega)).1
+  have h2 := hparse ((l.length : Int) + l'.length) (by omega)
+  rw [h1] at h2
+  have hs' : s = .done := by
+    apply Decidable.byContradiction; intro hc; simp [hc] at h2
+  rw [if_pos hs'] at h2
+  have hl : l' = serRefs 0 0 l := by cases h2; rfl
+  unfold padRefs
+  rw [hcount]
+  simp only []
+  rw [hparse l'.length (Int.le_refl _), if_pos hs', hl]
+
 end Opus.RepackProofs
